@@ -4,8 +4,9 @@
    (identifier vs state), C12 (padding); here: once a rule is broken, a message of its family appears at the offending offset. *)
 From Coq Require Import List NArith Bool.
 From FP Require Import Model.Base Model.ItsWords Model.ItsFsm Model.Rdh Model.RdhChecks Model.Payload Model.CdpRunning Model.Scanner Model.Link Model.Collector.
-From FP Require Import Spec.WordLayout Spec.Grammar Spec.GrammarIts Proofs.Bits Proofs.C02_proofs Proofs.C04_stave Proofs.C02_total Proofs.C02_cdw Proofs.C01_rdh Proofs.C01_its Proofs.C02_insync.
+From FP Require Import Spec.WordLayout Spec.Grammar Spec.GrammarIts Proofs.Bits Proofs.C02_proofs Proofs.C04_stave Proofs.C02_total Proofs.C02_cdw Proofs.C01_rdh Proofs.C01_its Proofs.C02_insync Proofs.C02_insync_tdh.
 From FP Require Proofs.C07_proofs.
+From FP Require Import Model.System Spec.Framing Spec.GroundTruth Proofs.C03_proofs Proofs.C06_proofs Proofs.C07_run Proofs.C14_proofs Proofs.C02_run.
 From FP Require Gen.Facts.
 Import ListNotations.
 Open Scope N_scope.
@@ -142,6 +143,70 @@ Proof. exact (ExampleF.example_insync (conj eq_refl (conj eq_refl eq_refl))). Qe
 Theorem C02_exit : forall n, exit_code (Some n) Init_ok true = n.
 Proof. exact c02_exit. Qed.
 
+(* THE TDH POSITIONS.  The same composition for the place where the TDH of an item stands: a link that conforms to the grammar up to there
+   -- complete heartbeat frames, the pages of the next frame before the chosen one, on the chosen page the IHW and ONE OR MORE complete
+   items (no-data TDHs, trigger packets, the closing piece of a continued packet) -- then ANY word w, ANY words behind it, ANY packets
+   after that page.  The validator reaches w in the state in which the grammar says an item starts (`entry`: a choice state after a
+   complete packet / no-data TDH, the continuation-TDH state on a page that continues a packet), at the true offset of w, having
+   reported nothing before; its messages for w open the report and are never retracted. *)
+Theorem C02_in_sync_tdh_position : forall ld, wf_link_rdh ld = true -> l_system ld = Gen.Facts.its_system_id -> (l_format ld = 0 \/ l_format ld = 2) ->
+  forall running hbfs1 ihs1 h hbfs2 pgs1 pg pgs2 ips1 ihw a items1 i items2 pad0 ips2 w rest pad ps1 p ps2,
+    l_hbfs ld = hbfs1 ++ h :: hbfs2 -> Forall2 (its_hbf_ok (l_format ld)) hbfs1 ihs1 ->
+    h_pages h = pgs1 ++ pg :: pgs2 ->
+    pages_ok h true None (ips1 ++ {| ip_ihw := ihw; ip_items := (a :: items1) ++ i :: items2; ip_pad := pad0 |} :: ips2) ->
+    map pg_payload pgs1 = map (fun q => layout (l_format ld) (page_words q) (ip_pad q)) ips1 ->
+    Forall gw (w :: rest) -> (pad <= 15)%nat ->
+    pg_payload pg = layout (l_format ld) ((ihw :: flat_map item_words (a :: items1)) ++ w :: rest) pad ->
+    map strip ps1 = flat_map (render_hbf ld) hbfs1 ++ render_pages ld h 0 pgs1 ->
+    strip p = (render_rdh ld h (N.of_nat (length pgs1)) 0 pg, pg_payload pg) ->
+    N.of_nat (S (length (flat_map item_words (a :: items1)))) < 65535 ->
+    c_off p + 64 + N.of_nat (S (length (flat_map item_words (a :: items1)))) * 16 < 18446744073709551616 ->
+    exists sk prev' opened',
+      entry (c_rdh p) ihw prev' opened' sk /\ (prev' <> None \/ opened' <> None) /\
+      pos_of sk = C07_proofs.wpos (c_off p + 64) (10 + C07_proofs.pad_of (c_rdh p)) (S (length (flat_map item_words (a :: items1)))) /\
+      exists out more, run_validator (its_cfg running) (ps1 ++ p :: ps2) = Ok out /\ out = word_msgs (its_cfg running) sk w ++ more.
+Proof. exact (c02_insync_link_tdh (conj eq_refl (conj eq_refl eq_refl))). Qed.
+
+(* ... and what w draws there: a TDH-identified word that breaks a TDH rule (reserved bits; neither trigger type nor internal trigger):
+   [E40] at the word; where a continuation TDH is due, EVERY word that is no sane TDH: [E40] at the word; after a complete packet or a
+   no-data TDH an identifier that is none of TDH / IHW / DDW0: [E990] / [E992] at the word *)
+Theorem C02_in_sync_tdh_fault : forall c sk r ihw prev opened w more, entry r ihw prev opened sk -> (prev <> None \/ opened <> None) ->
+  nb 9 w = Gen.Facts.tdh_id -> tdh_sanity w <> [] -> has_err (pos_of sk) 40 (word_msgs c sk w ++ more).
+Proof. exact insync_tdh_fault. Qed.
+Theorem C02_in_sync_no_tdh_where_continuation_is_due : forall c sk r ihw prev o w more, entry r ihw prev (Some o) sk ->
+  tdh_sanity w <> [] -> has_err (pos_of sk) 40 (word_msgs c sk w ++ more).
+Proof. exact insync_not_a_tdh_in_continuation. Qed.
+Theorem C02_in_sync_unknown_identifier_at_choice : forall c sk r ihw p w more, entry r ihw (Some p) None sk ->
+  nb 9 w <> Gen.Facts.tdh_id -> nb 9 w <> Gen.Facts.ihw_id -> nb 9 w <> Gen.Facts.ddw0_id ->
+  has_err (pos_of sk) 990 (word_msgs c sk w ++ more) \/ has_err (pos_of sk) 992 (word_msgs c sk w ++ more).
+Proof. exact (insync_unknown_id_at_choice (conj eq_refl (conj eq_refl eq_refl))). Qed.
+(* non-vacuity: the example link of C01; first page of the second heartbeat frame; behind a no-data TDH and a complete trigger packet the
+   TDH of the third item is replaced by a TDH-identified word with a reserved bit set; [E40] at byte 4096 + 64 + 6 * 10 *)
+Theorem C02_in_sync_tdh_example : forall running ps2, exists sk prev' opened',
+  entry (c_rdh ExampleT.pT) C01_its.Example.ihw prev' opened' sk /\ (prev' <> None \/ opened' <> None) /\ pos_of sk = 4096 + 64 + 60 /\
+  exists out more, run_validator (its_cfg running) (ExampleT.ps1 ++ ExampleT.pT :: ps2) = Ok out /\
+                   out = word_msgs (its_cfg running) sk ExampleT.badtdh ++ more /\ has_err (4096 + 64 + 60) 40 out.
+Proof. exact (ExampleT.example_insync_tdh (conj eq_refl (conj eq_refl eq_refl))). Qed.
+
+(* FROM THE VALIDATOR TO THE END OF THE RUN.  The detection theorems above are about one validator's pass.  For ONE WHOLE `check` RUN
+   on a well-framed input (any number of units, any interleaving, any filter, any display option; provisos as in C05_whole_run): every
+   error message a unit's validator emits in its pass over the unit's packets is stored in the final state of the run -- at ITS
+   offset, with ITS code --, the error total is positive, and a configured any-errors exit code N is the exit status.  With
+   C02_in_sync_position / _tdt_fault / _unknown_identifier (which message the pass emits, and where) this is detection end to end. *)
+Theorem C02_whole_run_reported : forall c pkts ff s shown ex id ms e,
+  Forall wf_pkt pkts -> N.of_nat (length pkts) < U32_MAX -> pay_all pkts < U32_MAX ->
+  (forall p, In p pkts -> layout_rp (hdr p) (p_payload p)) ->
+  (forall p r, pkts = p :: r -> known_sysid (r_system_id (hdr p)) = true) ->
+  let cdps := map (mk_cdp (rc_scan c)) (selected (rc_scan c) 0 pkts) in
+  run_check ff c (serialize pkts) = R_done s shown ex ->
+  sel (rc_check c) id cdps <> [] -> run_validator (rc_check c) (sel (rc_check c) id cdps) = Ok ms -> In (VErr e) ms ->
+  In (stored e) (k_errors s) /\ 0 < k_total s /\ (forall n, rc_exit c = Some n -> n <> 0 -> ex = n).
+Proof.
+  exact (fun c pkts ff s shown ex id ms e H1 H2 H3 H4 H5 =>
+           c02_reported c pkts (eq_refl : Gen.Facts.cdp_offset_sampled_after = true) (eq_refl : Gen.Facts.error_sort_when_muted = true)
+                        H1 H2 H3 H4 H5 ff s shown ex id ms e).
+Qed.
+
 Print Assumptions C02_rdh_sanity_reported.
 Print Assumptions C02_rdh_running_reported.
 Print Assumptions C02_running_not_in_sanity.
@@ -167,3 +232,9 @@ Print Assumptions C02_in_sync_tdt_fault.
 Print Assumptions C02_in_sync_unknown_identifier.
 Print Assumptions C02_in_sync_example.
 Print Assumptions C02_exit.
+Print Assumptions C02_whole_run_reported.
+Print Assumptions C02_in_sync_tdh_position.
+Print Assumptions C02_in_sync_tdh_fault.
+Print Assumptions C02_in_sync_no_tdh_where_continuation_is_due.
+Print Assumptions C02_in_sync_unknown_identifier_at_choice.
+Print Assumptions C02_in_sync_tdh_example.
